@@ -113,6 +113,24 @@ func sendRun(e *Env) {
 // ---------------------------------------------------------------------------
 // C09: in order, once each
 
+// numericProbe parses a sender's line of the form "PING :<id+1><k as 6 digits>"
+// (a lag probe with a short decimal token; the client's own keep-alive carries a
+// clock reading of 17 digits and more).
+func numericProbe(ln string) (id, k int, ok bool) {
+	t := strings.TrimPrefix(ln, "PING :")
+	if t == ln || len(t) < 7 || len(t) > 10 {
+		return 0, 0, false
+	}
+	n := 0
+	for _, c := range t {
+		if c < '0' || c > '9' {
+			return 0, 0, false
+		}
+		n = n*10 + int(c-'0')
+	}
+	return n/1000000 - 1, n % 1000000, true
+}
+
 func sendOrder(e *Env) {
 	g := G{e.S}
 	nSenders := 1 + g.W(2, 3, 3, 2, 2, 1, 1, 1)
@@ -199,6 +217,7 @@ func sendOrder(e *Env) {
 		issued  []string
 		payload []string
 		split   bool // alternates long Privmsg calls (split into pieces) with short Raw lines, to its own target
+		numeric bool // its lines are lag probes: PING with a short decimal token
 		done    bool
 		started bool
 	}
@@ -213,6 +232,10 @@ func sendOrder(e *Env) {
 				sd.payload = append(sd.payload, wirePayload(g))
 			}
 			e.S.Count("probe.binary-or-unicode-payload")
+		}
+		if !sd.split && sd.payload == nil && g.Pct(20) {
+			sd.numeric = true
+			e.S.Count("probe.sender-of-numeric-ping-tokens")
 		}
 		senders = append(senders, sd)
 		if !sd.split {
@@ -237,7 +260,14 @@ func sendOrder(e *Env) {
 			if sd.payload != nil {
 				line += " " + sd.payload[k%len(sd.payload)]
 			}
+			if sd.numeric {
+				line = fmt.Sprintf("PING :%d%06d", sd.id+1, k)
+			}
 			sd.issued = append(sd.issued, line)
+			if sd.numeric && k%2 == 0 {
+				s.c.Ping(strings.TrimPrefix(line, "PING :"))
+				continue
+			}
 			s.c.Raw(line)
 		}
 		sd.done = true
@@ -366,7 +396,7 @@ func sendOrder(e *Env) {
 	got := func() int {
 		n := 0
 		for _, ln := range s.lines {
-			if strings.HasPrefix(ln, "PRIVMSG #c :s") {
+			if _, _, ok := numericProbe(ln); ok || strings.HasPrefix(ln, "PRIVMSG #c :s") {
 				n++
 			}
 		}
@@ -398,6 +428,10 @@ func sendOrder(e *Env) {
 	// oracle: exactly once, byte for byte, per-sender order
 	per := map[int][]string{}
 	for _, ln := range s.lines {
+		if id, _, ok := numericProbe(ln); ok {
+			per[id] = append(per[id], ln)
+			continue
+		}
 		if !strings.HasPrefix(ln, "PRIVMSG #c :s") {
 			continue
 		}
@@ -1158,6 +1192,25 @@ func sendCommands(e *Env) {
 	}
 	ncalls := g.Range(1, 25)
 	pos := 0
+	callsDone := false
+	if g.Pct(15) {
+		// a watchdog of the application that calls Connect although the
+		// connection is up: refused, and nothing else happens
+		e.S.Count("fault.connect-called-while-connected")
+		e.S.Spawn("reconnect-timer", func() {
+			for k := 0; k < 6 && !callsDone && !e.S.Failed(); k++ {
+				simrt.Sleep(time.Duration(e.S.Choose(60)) * time.Millisecond)
+				for i := e.S.Choose(40); i > 0; i-- {
+					simrt.Sleep(0)
+				}
+				if err := s.c.Connect(); err == nil {
+					e.Violation("harness", "Connect on a connected client returned nil")
+					return
+				}
+			}
+		})
+	}
+	defer func() { callsDone = true }()
 	for k := 0; k < ncalls && !e.S.Failed(); k++ {
 		var cc cmdCall
 		if c11 {
